@@ -54,8 +54,15 @@ void destroy_obj(struct obj *o)
 	o->kind = K_NONE; o->p = NULL; o->aux = NULL;
 }
 
-extern void destroy_obj_ext(struct obj *o);   /* other families (weak default below) */
-__attribute__((weak)) void destroy_obj_ext(struct obj *o) { (void)o; }
+__attribute__((weak)) void destroy_merger(struct obj *o) { (void)o; }
+__attribute__((weak)) void destroy_sorter(struct obj *o) { (void)o; }
+__attribute__((weak)) void destroy_fileset(struct obj *o) { (void)o; }
+static void destroy_obj_ext(struct obj *o)
+{
+	if (o->kind == K_MERGER) destroy_merger(o);
+	else if (o->kind == K_SORTER) destroy_sorter(o);
+	else if (o->kind == K_FILESET) destroy_fileset(o);
+}
 
 static void reset_all(void)
 {
